@@ -7,6 +7,8 @@ import Geodesy.Lemmas.Real
 import Mathlib.Tactic.Ring
 import Mathlib.Tactic.Linarith
 import Mathlib.Analysis.SpecialFunctions.Arsinh
+import Mathlib.Analysis.SpecialFunctions.Complex.Arg
+import Mathlib.Analysis.SpecialFunctions.Trigonometric.Arctan
 
 namespace Geodesy
 namespace TmercLemmas
@@ -47,6 +49,54 @@ theorem complexSinTrig_imag_zero (sinR cosR coshI : ℝ) (cs : List ℝ) :
       fun r init h0 h1 => (clenshaw_imag_zero r rest init ⟨h0, h1⟩).1
     rw [key _ _ rfl rfl]
     ring
+
+/-- the real part of the complex Clenshaw sum at a vanishing imaginary argument (`sinh = 0`,
+`cosh = 1`) is the real Clenshaw sum: state by state -/
+theorem clenshaw_real_state (r : ℝ) (cs : List ℝ) (st : CState ℝ) (pr : ℝ × ℝ)
+    (h : st.hr = pr.1 ∧ st.hr1 = pr.2) :
+    (cs.foldl (cstep r 0) st).hr = (cs.foldl (fun (s : ℝ × ℝ) c => (Scalar.mulAdd r s.1 (c - s.2), s.1)) pr).1 ∧
+    (cs.foldl (cstep r 0) st).hr1 = (cs.foldl (fun (s : ℝ × ℝ) c => (Scalar.mulAdd r s.1 (c - s.2), s.1)) pr).2 := by
+  induction cs generalizing st pr with
+  | nil => exact h
+  | cons c rest ih =>
+    simp only [List.foldl_cons]
+    apply ih
+    obtain ⟨h0, h1⟩ := h
+    constructor
+    · simp only [cstep, scalar_mulAdd, h0, h1]; ring
+    · simp only [cstep, h0]
+
+theorem complexSinTrig_real (sinR cosR : ℝ) (cs : List ℝ) :
+    (complexSinTrig sinR cosR 0 1 cs).1 = sinR * (clenshaw (2 * cosR) cs).1 := by
+  have z : (@OfNat.ofNat ℝ 0 Scalar.instOfNat) = 0 := by
+    show (Scalar.ofNatLit 0 : ℝ) = 0
+    simp
+  have two : (@OfScientific.ofScientific ℝ Scalar.instOfScientific 20 true 1) = 2 := by
+    simp only [OfScientific.ofScientific, Scalar.ofSci, scalar_ofLit, Lit.toReal]; norm_num
+  unfold complexSinTrig clenshaw
+  cases hrev : cs.reverse with
+  | nil => simp only [z, List.foldl_nil]; ring
+  | cons c rest =>
+    simp only [mul_zero, mul_one, z, two, List.foldl_cons, scalar_mulAdd, sub_zero, zero_add]
+    have key := clenshaw_real_state (2 * cosR) rest
+      ({ hr2 := 0, hr1 := 0, hr := c, hi2 := 0, hi1 := 0, hi := 0 } : CState ℝ) (c, 0) ⟨rfl, rfl⟩
+    have himag := clenshaw_imag_zero (2 * cosR) rest
+      ({ hr2 := 0, hr1 := 0, hr := c, hi2 := 0, hi1 := 0, hi := 0 } : CState ℝ) ⟨rfl, rfl⟩
+    show sinR * (List.foldl (cstep (2 * cosR) 0) _ rest).hr - 0 * (List.foldl (cstep (2 * cosR) 0) _ rest).hi = _
+    rw [key.1]
+    simp only [scalar_mulAdd]
+    ring
+
+/-- `atan2(sin z, cos z) = z` between the poles -/
+theorem atan2_sin_cos (z : ℝ) (h1 : -(Real.pi / 2) < z) (h2 : z < Real.pi / 2) :
+    (Scalar.atan2 (Real.sin z) (Real.cos z) : ℝ) = z := by
+  show Complex.arg ⟨Real.cos z, Real.sin z⟩ = z
+  have hc : 0 < Real.cos z := Real.cos_pos_of_mem_Ioo ⟨h1, h2⟩
+  have hlt : |Complex.arg ⟨Real.cos z, Real.sin z⟩| < Real.pi / 2 := Complex.abs_arg_lt_pi_div_two_iff.mpr (Or.inl hc)
+  have h := abs_lt.mp hlt
+  rw [← Real.arctan_tan h.1 h.2, Complex.tan_arg]
+  show Real.arctan (Real.sin z / Real.cos z) = z
+  rw [← Real.tan_eq_sin_div_cos, Real.arctan_tan h1 h2]
 
 end TmercLemmas
 end Geodesy
